@@ -177,6 +177,10 @@ func corpus(w *lib.Writer, pl *pool) {
 		f("find", "xab", "(a(b)%1)", nil),               // C14-9 witness of the side report
 		f("gmatch", "xab", "(a(b)%1)", nil),             //
 		f("find", "b", "(a%1)", nil),                    // never reached in 5.1 (nil); an error here is allowed
+		f("find", "a", "%1(a)", nil),                    // seeded C14-9 (wave 5): forward reference, reached: error
+		f("gmatch", "abab", "(a)%2(b)", nil),            //
+		g("abab", "%2(a)(b)", str("x"), nil),            //
+		f("match", "b", "a%1(a)", nil),                  // forward reference never reached: nil or error
 		g("abc", "b", replIn{Kind: "fn", Rets: []tabEntry{{Bad: "table"}}}, nil),                        // invalid replacement value (fixed)
 		g("abc", "%w", replIn{Kind: "fn", Rets: []tabEntry{{Val: sp("x")}, {Bad: "true"}}}, nil),         //
 		g("abc", "b", replIn{Kind: "tab", Tab: []tabEntry{{KeyStr: sp("b"), Bad: "table"}}}, nil),       //
@@ -552,6 +556,7 @@ func gsubCase(r *lib.Rand, p, s, origin string) in {
 			rets = append(rets, e)
 		}
 		c.Repl = &replIn{Kind: "fn", Rets: rets}
+		c.Nested = r.Chance(50)
 	}
 	if r.Chance(45) {
 		c.Limit = i64(int64([]int{-1, 0, 1, 1, 2, 3, len(s) + 1}[r.Intn(7)]))
@@ -571,7 +576,7 @@ func anyCase(r *lib.Rand, p, s, origin string) in {
 		}
 		return c
 	case 2:
-		return in{Fn: "gmatch", S: hx(s), P: hx(p), Src: origin}
+		return in{Fn: "gmatch", S: hx(s), P: hx(p), Nested: r.Chance(40), Src: origin}
 	case 3:
 		return gsubCase(r, p, s, origin)
 	case 4:
@@ -771,6 +776,8 @@ func generate(w *lib.Writer, pl *pool, r *lib.Rand, tier string) {
 		s := subjectFor(r, p)
 		runCase(w, pl, gsubCase(r, p, s, "gsub"))
 	}
+	// (5) back-references at every position relative to the captures, on witness subjects (backref.go)
+	backrefStream(w, pl, r.Fork(), thorough)
 }
 
 // anchoredBody: a pattern body and a string it matches entirely. Mostly fixed-width items
